@@ -5,9 +5,11 @@
      the published definitions: its regime and addons exist, each tax combo's
      category and rate key belong to the regime that applies to it, each
      extension key is defined by the regime, an addon or a catalogue and its
-     value is one of the allowed codes or matches the declared pattern, each tag
-     is offered by the regime or an active addon for that document type, and
-     currencies and countries are known codes."
+     value is one of the allowed codes or matches the declared pattern (also
+     inside the tax summaries a document stores), each tag is offered by the
+     regime or an active addon for that document type, the category named as
+     included in the prices belongs to the document's regime, and currencies and
+     countries are known codes."
 
   `Defs` is loaded from Generated/Defs.lean, i.e. from the published data files.
 -/
@@ -45,6 +47,14 @@ def tagResolves (docRegime : Option Regime) (addons : List Addon) (schema tag : 
   (∃ r, docRegime = some r ∧ ∃ ts ∈ r.tags, ts.schema = schema ∧ tag ∈ ts.keys) ∨
   (∃ a ∈ addons, ∃ ts ∈ a.tags, ts.schema = schema ∧ tag ∈ ts.keys)
 
+/-- the category named by `tax.prices_include` is one of the document's regime -/
+def includesResolves (d : Defs) (docRegime cat : String) : Prop :=
+  ∃ r ∈ d.liveRegimes, (r.country = docRegime ∨ docRegime ∈ r.alt) ∧ ∃ c ∈ r.categories, c.code = cat
+
+/-- every extension pair of every rate of a stored tax summary resolves -/
+def totalResolves (d : Defs) (pm : PatternMatch) (cats : List CategoryTotal) : Prop :=
+  ∀ ct ∈ cats, ∀ rt ∈ ct.rates, extResolves d pm rt.ext
+
 def currencyResolves (d : Defs) (code : String) : Prop := code ∈ d.currencies
 def countryResolves (d : Defs) (code : String) : Prop := code ∈ d.countries
 
@@ -60,6 +70,11 @@ def comboResolvesB (d : Defs) (docRegime : String) (c : Combo) : Bool :=
     match r.category c.category with
     | none => false
     | some cat => c.rate == "" || cat.rateKeys.any (fun k => keyHas c.rate k)
+
+def includesResolvesB (d : Defs) (docRegime cat : String) : Bool :=
+  match d.regimeFor docRegime with
+  | none => false
+  | some r => r.categories.any (·.code == cat)
 
 def extPairResolvesB (d : Defs) (pm : PatternMatch) (kv : String × String) : Bool :=
   d.allExtDefs.any fun kd => kd.key == kv.1 && (kd.codes.isEmpty || kd.codes.contains kv.2) && (kd.pattern == "" || pm kd.pattern kv.2)
